@@ -300,16 +300,17 @@ func (p *Path) Call(fn *ssa.Function, args []Value, deferredBy *frame, env []Val
 		return h(p, fn, args)
 	}
 	if h, name := p.X.contract(fn); h != nil {
-		if p.spec > 0 {
+		basic := name == "decDigits64" || name == "magic.div" || name == "div10W_g"
+		if p.spec > 0 && name != "decDigits64" {
 			// preconditions are obligations: not inside speculation
-			if name != "decDigits64" {
-				panic(specAbort{"contract"})
-			}
+			panic(specAbort{"contract"})
 		}
-		v, pn := h(p, fn, args)
-		if v != nil || pn != nil {
-			p.X.noteContract(name)
-			return v, pn
+		if p.initPkg == nil || basic {
+			v, pn := h(p, fn, args)
+			if v != nil || pn != nil {
+				p.X.noteContract(name)
+				return v, pn
+			}
 		}
 	}
 	if p.initPkg != nil && fn.Name() == "init" && fn.Pkg != p.initPkg && fn.Synthetic != "" {
